@@ -386,10 +386,10 @@ def judge_e2e(case):
 
 
 SUBS = [
-    Sub("merge_function", judge_merge, merge_case(), quick=600, thorough=20000,
+    Sub("merge_function", judge_merge, merge_case(), quick=600, thorough=80000,
         rule="gen.merge_mode_shapes on restricted, re-scaled copies of one global matrix equals c_1k*[refs; roving per setup]; order cross-checked with flatten_sns_names"),
-    Sub("poser_stats", judge_poser, poser_case(), quick=150, thorough=3000,
+    Sub("poser_stats", judge_poser, poser_case(), quick=150, thorough=12000,
         rule="MultiSetup_PoSER.merge_results: Fn/Xi arithmetic means, population std / mean, merged Phi, one result per name"),
-    Sub("end_to_end", judge_e2e, e2e_case(), quick=24, thorough=600,
+    Sub("end_to_end", judge_e2e, e2e_case(), quick=24, thorough=2400,
         rule="one global real-mode system, per-setup free decays with gains over 4 decades -> SSIcov -> mpe(order=2m) -> PoSER: merged shape equals the global one"),
 ]
